@@ -143,7 +143,7 @@ def cli_worker(kp, job):
     records = []
     try:
         texts = {}
-        layout = ['a.krn', 'b.kern', 'sub/c.krn', 'sub/deep/d.krn', 'note.txt']
+        layout = ['a.krn', 'b.kern', 'sub/c.krn', 'sub/deep/d.krn', 'note.txt', 'sub/a.krn', 'sub/deep/a.krn', 'other/b.kern', 'sub/deep/c.krn']
         for rel in layout:
             g = docs.gen_doc(rng, max_spines=3, measures=rng.randint(1, 2), rest_in_chord=0, comments=False)
             g.nl = rng.choice(['\n', '\r\n'])
@@ -217,7 +217,7 @@ def run(chk):
     chk.rule = ('generated documents written to real temporary files with LF / CRLF / CR line ends, with and without final newline, '
                 'non-ASCII lyrics (every 11th with the extra separators of str.splitlines: finding K9): load vs loads (whole tree), '
                 'dump vs dumps for 3 option sets into missing directories; python -m kernpy subprocesses: single-file kern2ekern, '
-                'ekern2kern and back, directory mode with and without -r over a tree with .krn / .kern / other files; '
+                'ekern2kern and back, directory mode with and without -r over a tree with .krn / .kern / other files, the same file names in several directories; '
                 'non-trivial = distinct (text, operation)')
     results = engine.pmap(file_worker, [(chk.seed, i) for i in range(nfile)]) + engine.pmap(cli_worker, [(chk.seed, i) for i in range(ncli)], nproc=min(ncli, 6))
     engine.settle(chk, results, model)
